@@ -285,6 +285,10 @@ struct FnMon {
     /// (slot, cause) of entries removed by an expiry purge or an invalidation and not stored since,
     /// oldest first (u32::MAX = "whatever the initial reset removed")
     taint: Vec<(u32, &'static str)>,
+    /// slots whose current entry was stored by an invalidate_on refresh (C11 attribution)
+    refreshed: BTreeSet<u32>,
+    /// slots whose current entry was stored by a call that had been suspended and resumed (C20 attribution)
+    resumed_store: BTreeSet<u32>,
     /// deterministic body for the whole history (value = mix(fid, digest), always Ok): twin equality applies
     pure_: bool,
 }
@@ -609,6 +613,12 @@ impl<'a> Hist<'a> {
             if dec == StoreDecision::Stored {
                 m.stored_by.insert(slot, actor);
                 m.nostore.remove(&slot);
+                m.resumed_store.remove(&slot);
+                if why == Why::Stale {
+                    m.refreshed.insert(slot);
+                } else {
+                    m.refreshed.remove(&slot);
+                }
                 // (the taint is sticky: an invalidation may have disturbed the bookkeeping of
                 // other keys too, which storing this key again does not heal)
             } else {
@@ -797,6 +807,12 @@ impl<'a> Hist<'a> {
                 if stored {
                     m.stored_by.insert(s.slot, actor);
                     m.nostore.remove(&s.slot);
+                    m.resumed_store.insert(s.slot);
+                    if s.stale_refresh {
+                        m.refreshed.insert(s.slot);
+                    } else {
+                        m.refreshed.remove(&s.slot);
+                    }
                 } else {
                     m.nostore.insert(s.slot, if wd.has_cache_if && !s.pred { StoreDecision::SkippedPredicate } else { StoreDecision::SkippedErr });
                 }
@@ -880,6 +896,16 @@ impl<'a> Hist<'a> {
         let must_exec = outs.iter().all(|o| o.executed);
         let must_not_exec = outs.iter().all(|o| !o.executed);
         let entry = pre.get(slot as Key);
+        // an entry that was stored by a resumed call / by an invalidate_on refresh and then does not
+        // behave like a normally stored one (not served, wrong age, wrong value)
+        if entry.is_some() && ((executed && must_not_exec) || (!executed && !outs.iter().any(|o| !o.executed && o.value == co.value))) {
+            if m.resumed_store.contains(&slot) {
+                return mk("C20", "entry-stored-by-a-resumed-call-not-served-normally", format!("slot {}: the entry was stored by a call that had been suspended and resumed; it is {} now although a normally stored entry would be {}", slot, if executed { "recomputed" } else { "served with another value" }, if executed { "served" } else { "served with the stored value" }));
+            }
+            if m.refreshed.contains(&slot) && d.has_invalidate_on {
+                return mk("C11", "refreshed-entry-not-served-normally", format!("slot {}: the entry is the result of an invalidate_on refresh; the following call {} although the check accepts it and a normally stored entry would be served", slot, if executed { "ran the body again" } else { "was served another value" }));
+            }
+        }
         // 1. did the body run when it should not / not run when it should?
         if executed && must_not_exec {
             // a cached, live, non-stale entry exists but the body ran again
@@ -1377,7 +1403,7 @@ fn new_fnmon(d: &'static FnDesc, n_actors: usize, rng: &mut Rng, focus: &str) ->
     let off = if d.nslots as usize > n { rng.usize(d.nslots as usize - n + 1) } else { 0 };
     let slots: Vec<u32> = (0..n).map(|i| (off + i) as u32).collect();
     let nb = if d.scope_thread { n_actors } else { 1 };
-    FnMon { d, cfg, wd: wd_of(d), beliefs: (0..nb).map(|_| Belief::new()).collect(), keymap: BTreeMap::new(), rev: HashMap::new(), vals: HashMap::new(), stored_by: HashMap::new(), nostore: HashMap::new(), slots, execs: HashMap::new(), taint: vec![], pure_ }
+    FnMon { d, cfg, wd: wd_of(d), beliefs: (0..nb).map(|_| Belief::new()).collect(), keymap: BTreeMap::new(), rev: HashMap::new(), vals: HashMap::new(), stored_by: HashMap::new(), nostore: HashMap::new(), slots, execs: HashMap::new(), taint: vec![], refreshed: BTreeSet::new(), resumed_store: BTreeSet::new(), pure_ }
 }
 
 /// C03, sequential: with nothing that could remove an entry, the body ran exactly once per
